@@ -71,7 +71,7 @@ def placeholder_like(v, tag):
         if v.mask is not None:
             raise ModelError("loop-carried selection")
         name = "@in:%s" % tag
-        return Arr(v.shape, lambda *idx: T.app(name, *idx), v.dtype, v.kind), name
+        return Arr(v.shape, lambda *idx: T.app(name, *idx), v.dtype, v.kind, origin=v.origin), name
     if isinstance(v, (Poly, int, float, Fraction)) and not isinstance(v, bool):
         name = "@in:%s" % tag
         return T.sym(name), name
@@ -158,7 +158,7 @@ def summarise_arr(orig, ph, name, out, i, iname, n, what):
             mp = {nm: P(j) for nm, j in zip(names, jj)}
             d = T.subst(delta, mp)
             return P(orig.fn(*jj)) + T.mk_sum(i, n, d)
-        return Arr(orig.shape, fn, orig.dtype, out.kind)
+        return Arr(orig.shape, fn, orig.dtype, out.kind, origin=orig.origin)
     # R2: out = in + [j0 == i] * (g - in)   with g free of in
     ind = T.mk_ind(T.cmp_cond("==", idx[0], i))
     g = None
@@ -183,7 +183,7 @@ def summarise_arr(orig, ph, name, out, i, iname, n, what):
             mp = {nm: P(j) for nm, j in zip(names, jj)}
             mp[iname] = P(jj[0])
             return T.subst(g, mp)
-        return Arr(orig.shape, fn, orig.dtype, out.kind)
+        return Arr(orig.shape, fn, orig.dtype, out.kind, origin=orig.origin)
     raise ModelError("loop-carried array '%s' matches neither the fold nor the indexed-store rule" % what)
 
 
@@ -260,11 +260,11 @@ def symbolic_for(I, s, env, it, n):
             o.fields[fld] = p
             ph[("a", o.oid, fld)] = (p, pname)
     # ---- run the body once
+    I.assumed.add(T.cmp_cond("<=", ZERO, i))
+    I.assumed.add(T.cmp_cond("<", i, n))
     elem = it.elem(i)
     I.assign(s.target, elem, env)
     pathlen = len(I.path)
-    I.assumed.add(T.cmp_cond("<=", ZERO, i))
-    I.assumed.add(T.cmp_cond("<", i, n))
     try:
         I.exec_block(s.body, env)
     except T_Continue:
